@@ -21,13 +21,21 @@ def adv_string(rng, maxlen=6, empty_ok=True):
     return ''.join(rng.choice(ADV) for _ in range(n))
 
 
+# family names that END like a derived series: the expositions single out samples named <family> + one of these
+SUFFIX_LIKE = ['_created', '_gsum', '_gcount']
+
+
+def suffix_like(rng):
+    return rng.choice(SUFFIX_LIKE) if rng.random() < 0.12 else ''
+
+
 def legacy_name(rng, stem):
-    return stem + ''.join(rng.choice(LEGACY + '019') for _ in range(rng.randrange(0, 3)))
+    return stem + ''.join(rng.choice(LEGACY + '019') for _ in range(rng.randrange(0, 3))) + suffix_like(rng)
 
 
 def utf8_name(rng, stem):
     """A metric/label name in 'arbitrary UTF-8': stem keeps names distinct, the rest is adversarial."""
-    return stem + adv_string(rng, 4, empty_ok=False)
+    return stem + adv_string(rng, 4, empty_ok=False) + suffix_like(rng)
 
 
 def label_names(rng, k, utf8):
@@ -66,6 +74,8 @@ def gen_timestamp(rng, om):
         return rng.randrange(0, 2 * 10 ** 12) / 1000.0
     if r < 0.9:
         return Timestamp(rng.randrange(0, 2 * 10 ** 9), rng.choice([0, 1, 500000000, 999999999, rng.randrange(10 ** 9)]))
+    if not om and r < 0.94:      # before the epoch: the text format carries a signed number of milliseconds
+        return rng.choice([-1, -123.456, -0.001, -1.5e9, -rng.randrange(1, 2 * 10 ** 9), -rng.randrange(1, 10 ** 12) / 1000.0])
     return rng.choice([0, 0.0, 1.5, 123.456, 1e9, 1700000000.123])
 
 
@@ -77,7 +87,7 @@ class ListCollector:
         return list(self.fams)
 
 
-def gen_helper_family(rng, stem, utf8, om, exemplars=False, units=False):
+def gen_helper_family(rng, stem, utf8, om, exemplars=False, units=False, ineligible=False):
     """One family through a *MetricFamily helper.  Returns the Metric."""
     from prometheus_client import core
     from prometheus_client.samples import Exemplar
@@ -165,6 +175,11 @@ def gen_helper_family(rng, stem, utf8, om, exemplars=False, units=False):
         for _ in range(nchild):
             f.add_metric(lvals(), {adv_string(rng, 4): rng.random() < 0.5 for _ in range(rng.randrange(1, 3))},
                          timestamp=ts())
+    if ineligible and kind in ('gauge', 'unknown', 'summary', 'info') and f.samples and rng.random() < 0.25:
+        # an exemplar where the format allows none (Metric.add_sample lets a custom collector do this): the exposition
+        # must refuse it, since the parser does
+        i = rng.randrange(len(f.samples))
+        f.samples[i] = f.samples[i]._replace(exemplar=Exemplar({'t': adv_string(rng, 3)}, gen_value(rng), None))
     return f
 
 
@@ -207,7 +222,7 @@ def gen_small(rng):
     return rng.choice([0, 1, 0.5, 2.5, 1e6, 3e10, 1e-3, 7])
 
 
-def gen_registry(rng, utf8=True, om=False, exemplars=False, units=False, nfam=None):
+def gen_registry(rng, utf8=True, om=False, exemplars=False, units=False, nfam=None, ineligible=False):
     from prometheus_client import CollectorRegistry
     reg = CollectorRegistry(auto_describe=False)
     n = nfam if nfam is not None else rng.randrange(1, 4)
@@ -215,7 +230,7 @@ def gen_registry(rng, utf8=True, om=False, exemplars=False, units=False, nfam=No
     for i in range(n):
         stem = 'f%d' % i + rng.choice(['', '_', 'q'])
         if rng.random() < 0.7:
-            fams.append(gen_helper_family(rng, stem + 'h', utf8, om, exemplars, units))
+            fams.append(gen_helper_family(rng, stem + 'h', utf8, om, exemplars, units, ineligible))
         else:
             if fams:
                 reg.register(ListCollector(fams))
